@@ -251,6 +251,13 @@ def build_evidence(pid, tier, seed, m, obs, results, wall, violations, known_hit
             "obligation_status": {s: sum(1 for r in results if r["status"] == s)
                                   for s in sorted({r["status"] for r in results})},
             "assertion_status": labels,
+            "obligations_without_solver_query": {
+                "count": sum(1 for r in results if (r["harness"], r["cfg"]) not in nontrivial),
+                "meaning": "the assertions of these obligations folded to constants on a single path (concrete inputs "
+                           "or constant terms): they are decided by running the real code, not by the solver, and are "
+                           "not counted in distinct_nontrivial",
+                "examples": sorted({r["harness"] for r in results if (r["harness"], r["cfg"]) not in nontrivial})[:12],
+            },
             "paths_explored": sum(r.get("paths", 0) for r in results),
             "solver_queries": queries,
             "solver_time_s": round(sum(r.get("solver_s", 0) for r in results), 3),
